@@ -129,6 +129,14 @@ def make_case0(g, a, b):
                 mid = [a[0] + "q"]
         ident = build(style, pre, mid, post, prefix, trail)
         return ident, ident, "near_miss", None
+    if kind < 0.2 and style in ("Snake", "Kebab", "ScreamingSnake"):
+        # a dotted chain whose first segment is a near miss that CONTAINS the second segment's text (xfoo_bar_cfg.foo_bar_cfg):
+        # segment spans have to be the segments' own positions
+        comp = build(style, [], a, post or ["cfg"], "", False)
+        new = build(style, [], b, post or ["cfg"], "", False)
+        near = (r.choice(["X", "Q"]) if style == "ScreamingSnake" else r.choice(["x", "q"])) + comp     # same case: no hump boundary
+        glue = r.choice([".", ".", "..", "::"]) if False else "."
+        return near + glue + comp, near + glue + new, "dotted_chain", None
     outside = [d for d in range(1, len(pre + a + post)) if d <= len(pre) or d >= len(pre) + len(a)]
     if kind < 0.2 and style in SEP and outside:
         # a doubled separator somewhere outside the term's span
